@@ -192,6 +192,16 @@ func (ss *segmentStack) Stats() *SegmentStackStats {
 	return rv
 }
 
+// statsAll returns the stats for this segment stack including the
+// segments of all its child collection stacks.
+func (ss *segmentStack) statsAll() *SegmentStackStats {
+	rv := ss.Stats()
+	for _, childSegStack := range ss.childSegStacks {
+		childSegStack.statsAll().AddTo(rv)
+	}
+	return rv
+}
+
 // ChildCollectionNames returns an array of child collection name strings.
 func (ss *segmentStack) ChildCollectionNames() ([]string, error) {
 	var childCollections = make([]string, len(ss.childSegStacks))
